@@ -79,7 +79,10 @@ type lcRig struct {
 	cbSeq    int
 	waitRet  bool
 	stopped  bool
+	underLock int
 }
+
+func (r *lcRig) noLockHeld() bool { return r.underLock == 0 }
 
 var lc *lcRig
 
@@ -140,7 +143,7 @@ type gracefulFake struct{ *fakeServer }
 func (g gracefulFake) Stop() error {
 	r := g.rig
 	if !r.cleanup {
-		r.c.Park(fmt.Sprintf("hook.stop/%s/%s#%d", g.inst, g.name, r.nextSeq()), "stop:"+g.inst)
+		r.c.ParkIf(fmt.Sprintf("hook.stop/%s/%s#%d", g.inst, g.name, r.nextSeq()), "stop:"+g.inst, r.noLockHeld)
 	}
 	r.ev("stop", g.inst, g.name)
 	g.once.Do(func() { close(g.stopCh) })
@@ -275,16 +278,29 @@ func (r *lcRig) callback(label, kind string) error {
 		return nil
 	}
 	if !calledUnderLock() {
-		// (never park inside a critical section: a goroutine waiting for a
-		// sync.Mutex / sync.Once is not durably blocked and quiescence would
-		// never be reached)
 		r.cbSeq++
-		r.c.Park(fmt.Sprintf("hook.cb/%s/%s#%d", label, kind, r.cbSeq), "cb:"+label)
+		r.c.ParkIf(fmt.Sprintf("hook.cb/%s/%s#%d", label, kind, r.cbSeq), "cb:"+label, r.noLockHeld)
 		if r.cleanup {
 			return nil
 		}
 	} else {
+		// The signal-driven shutdown path runs callbacks while holding the
+		// instance-list mutex inside a sync.Once. A goroutine waiting for a
+		// mutex is not durably blocked, so while a callback is parked here
+		// nothing that could contend for those locks may run: every other
+		// parked point, reload / stop operation and SIGTERM is gated on
+		// noLockHeld; SIGINT, SIGQUIT and SIGHUP take no lock and stay enabled
+		// (that is how the force-quit on a second SIGINT is reached).
 		r.c.Probe("callback-under-process-shutdown-lock")
+		r.cbSeq++
+		r.underLock++
+		r.c.Park(fmt.Sprintf("hook.cbl/%s/%s#%d", label, kind, r.cbSeq), "cb:"+label)
+		r.underLock--
+		if r.cleanup {
+			return nil
+		}
+		r.ev("cb:"+kind, label, "by-signal")
+		return nil
 	}
 	r.ev("cb:"+kind, label, "")
 	a := r.cur
@@ -357,7 +373,7 @@ func runLifecycle(c *sim.Ctl) {
 
 	// operator
 	go func() {
-		c.Park("op.00start", "operator")
+		c.ParkIf("op.00start", "operator", r.noLockHeld)
 		cfg0 := r.genCfg(rkOK)
 		r.pending = cfg0
 		in, err := casket.LoadCasketfile("fake")
@@ -383,7 +399,7 @@ func runLifecycle(c *sim.Ctl) {
 			r.waitRet = true
 		}()
 		for i, k := range opKinds {
-			c.Park(fmt.Sprintf("op.%02dreload", i+1), "operator")
+			c.ParkIf(fmt.Sprintf("op.%02dreload", i+1), "operator", r.noLockHeld)
 			if r.exited || r.cleanup || r.waitRet {
 				return
 			}
@@ -393,6 +409,9 @@ func runLifecycle(c *sim.Ctl) {
 				r.sendSignal(syscall.SIGUSR1)
 				// the next operation starts only when this signal-driven reload is over
 				c.ParkIf(fmt.Sprintf("op.%02dwait", i+1), "operator", func() bool {
+					if !r.noLockHeld() {
+						return false
+					}
 					r.pollSigReload()
 					if a := r.lastAttempt(cfg.label); a != nil && a.end >= 0 {
 						return true
@@ -412,7 +431,7 @@ func runLifecycle(c *sim.Ctl) {
 			}
 		}
 		if withStopOp && !r.exited && !r.cleanup {
-			c.Park("op.90stop", "operator")
+			c.ParkIf("op.90stop", "operator", r.noLockHeld)
 			if r.exited || r.cleanup {
 				return
 			}
@@ -432,8 +451,8 @@ func runLifecycle(c *sim.Ctl) {
 	c.Loop(3, func() bool { return r.exited || r.waitRet || (r.opsDone && r.sigLeft == 0) })
 	if !r.exited && !r.waitRet {
 		// every history ends with a graceful process shutdown
-		c.Drain(200, 100*time.Millisecond, func() bool { return r.opsDone || r.exited || r.waitRet })
-		if !r.exited && !r.waitRet {
+		c.Drain(300, 100*time.Millisecond, func() bool { return (r.opsDone && r.noLockHeld()) || r.exited || r.waitRet })
+		if !r.exited && !r.waitRet && r.noLockHeld() {
 			r.sigLeft = 0
 			r.sendSignal(syscall.SIGTERM)
 			if !c.Drain(300, 100*time.Millisecond, func() bool { return r.exited || r.waitRet }) {
@@ -527,7 +546,7 @@ func (r *lcRig) pollSigReload() {
 			r.endAttempt(false, "restartfailed seen")
 			return
 		}
-		if e.kind == "cb:shutdown" && e.inst == a.old {
+		if e.kind == "cb:shutdown" && e.inst == a.old && e.arg != "by-signal" {
 			r.endAttempt(true, "")
 			return
 		}
@@ -588,6 +607,11 @@ func (r *lcRig) events(add func(sim.Event)) {
 	if r.started && r.sigLeft > 0 {
 		for _, s := range []os.Signal{os.Interrupt, syscall.SIGTERM, syscall.SIGQUIT, syscall.SIGHUP} {
 			s := s
+			if !r.noLockHeld() && (s == syscall.SIGTERM || s == os.Interrupt && r.nINT == 0) {
+				// these handlers would wait for the sync.Once held by the parked callback
+				// (a SECOND SIGINT force-quits without taking any lock)
+				continue
+			}
 			w := 1
 			if s == syscall.SIGHUP {
 				w = 1
